@@ -9,8 +9,19 @@ pub const CS: usize = 65536;
 #[derive(Clone, Debug, PartialEq, Eq, Serialize, Deserialize, Hash)]
 pub struct Plain { pub len: usize, pub seed: u64 }
 fn splitmix(mut z: u64) -> u64 { z = z.wrapping_add(0x9E3779B97F4A7C15); z = (z ^ (z >> 30)).wrapping_mul(0xBF58476D1CE4E5B9); z = (z ^ (z >> 27)).wrapping_mul(0x94D049BB133111EB); z ^ (z >> 31) }
+/// Seeds 1..=4 modulo 64 stand for data that is itself kestrel output (re-encrypting a file for somebody else,
+/// wrapping a password file in a key envelope): a whole small key-mode file, a whole small password-mode file, or
+/// just the 4-byte format magic, followed by the keyed stream.
+static NESTED_KEY: &[u8] = include_bytes!("../../../golden/key-02.ktl");
+static NESTED_PASS: &[u8] = include_bytes!("../../../golden/pass-02.ktl");
+pub fn nested_prefix(seed: u64) -> &'static [u8] { match seed % 64 { 1 => NESTED_KEY, 2 => NESTED_PASS, 3 => &NESTED_KEY[..4], 4 => &NESTED_PASS[..4], _ => &[] } }
 pub fn fill_at(seed: u64, off: u64, out: &mut [u8]) {
     if seed == 0 { out.fill(0); return; } // seed 0 stands for all-zero content
+    fill_stream(seed, off, out);
+    let pre = nested_prefix(seed);
+    if (off as usize) < pre.len() { let n = (pre.len() - off as usize).min(out.len()); out[..n].copy_from_slice(&pre[off as usize..off as usize + n]); }
+}
+fn fill_stream(seed: u64, off: u64, out: &mut [u8]) {
     let mut i = 0usize;
     while i < out.len() {
         let pos = off + i as u64; let w = splitmix(seed ^ (pos / 8).wrapping_mul(0xD1B54A32D192ED03)).to_le_bytes();
@@ -126,6 +137,11 @@ pub fn wrong_passwords(w: &[u8], sel: u64) -> Vec<(Vec<u8>, &'static str)> {
     if w.last().map(|c| c.is_ascii_whitespace()).unwrap_or(false) { let mut x = w.to_vec(); while x.last().map(|c| c.is_ascii_whitespace()).unwrap_or(false) { x.pop(); } v.push((x, "trimmed")); }
     if w.first().map(|c| c.is_ascii_whitespace()).unwrap_or(false) { v.push((w[1..].to_vec(), "left-trimmed")); }
     v.push((b"an unrelated password".to_vec(), "unrelated"));
+    // same bytes, length differing by 256 or 65536: what a length carried in 8 or 16 bits cannot tell apart
+    let mut x = w.to_vec(); x.extend(std::iter::repeat(b'a').take(256)); v.push((x, "append-256"));
+    let mut x = w.to_vec(); x.extend(bytes_from(sel | 1, 256)); v.push((x, "append-256-random"));
+    let mut x = w.to_vec(); x.extend(std::iter::repeat(0x5au8).take(65536)); v.push((x, "append-65536"));
+    if w.len() > 256 { v.push((w[..w.len() - 256].to_vec(), "prefix-256")); }
     let mut x = w.to_vec(); x.push(0); v.push((x, "equiv:nul"));
     // SHA-256(w) is the same HMAC key as w exactly when |w| > 64 (callers classify with hmac_equiv); for |w| <= 64 it is simply another password
     v.push((kspec::sha256(w).to_vec(), if w.len() > 64 { "equiv:digest" } else { "digest" }));
